@@ -3,7 +3,7 @@
     objects (Model/FloatTables.v relates them to the millisecond parameters). The statements
     quantify over every state reachable by any sequence of micro-steps (Proofs/MicroP.v:
     every schedule of process() calls, user calls and clock ticks is such a sequence). *)
-From IsoTp Require Import Base.Prelude Model.Micro Spec.ConfigSpec Proofs.Events Proofs.Inv Proofs.FsmProps.
+From IsoTp Require Import Base.Prelude Model.Micro Model.FloatTables Spec.ConfigSpec Proofs.Events Proofs.Inv Proofs.FsmProps Proofs.LocalP.
 
 (** ConsecutiveFrameTimeoutError is reported by a micro-step iff that step is the timeout check
     of the reception loop, a reception is in progress, and more than rx_consecutive_frame_timeout
@@ -55,7 +55,14 @@ Theorem C07_idle : forall c s, reachable c s ->
   (tx_state s <> TxWaitFC -> timer_running (timer_rx_fc s) = false).
 Proof. exact timers_idle. Qed.
 
+(** The nanosecond value a Timer holds for a millisecond parameter (float computation of the
+    implementation, evaluated on Coq's binary64 floats) is the exact value or 1 ns less, for
+    every timeout from 0 to 20 s. *)
+Theorem C07_conversion : forall ms, 0 <= ms <= 20000 -> ms * 1000000 - 1 <= to_ns ms <= ms * 1000000.
+Proof. exact to_ns_bounds. Qed.
+
 Print Assumptions C07_rx_iff.
+Print Assumptions C07_conversion.
 Print Assumptions C07_rx_effect.
 Print Assumptions C07_rx_accept.
 Print Assumptions C07_tx_only_if.
